@@ -19,10 +19,17 @@ struct rc_ghost {
   /* merge callee */
   int merge_calls; econf_err merge_ret; econf_file *merge_result;
   /* free */
-  int free_calls; econf_file *freed;
+  int free_calls; econf_file *freed;   /* releases of the placeholder object */
+  int mfree_calls;                     /* releases of a merge result (entry points, after a failed merge) */
+  /* entry points (jobs entry.*): the two directory arguments */
+  const char *dist, *etc;
 };
 extern struct rc_ghost rc;
 #define IS_CODE(r) ((r) >= ECONF_SUCCESS && (r) <= ECONF_VALUE_CONVERSION_ERROR)
+/* jobs entry.econf_readDirs*: what the entry point must have put into the object (contracts/entry_dirs.h) */
+#ifndef RCWC_EXTRA_REQUIRES
+#define RCWC_EXTRA_REQUIRES
+#endif
 
 econf_err readConfigHistoryWithCallback(econf_file ***key_files, size_t *size, char **parse_dirs,
 					const int parse_dirs_count, const char *config_name,
@@ -56,11 +63,19 @@ __CPROVER_ensures(*merged_files == rc.merge_result)
 ;
 
 econf_file *econf_freeFile(econf_file *key_file)
-__CPROVER_requires(key_file == NULL || (key_file == rc.obj && rc.free_calls == 0))
-__CPROVER_assigns(rc.free_calls, rc.freed)
+/* nothing is released twice: the placeholder object once; a merge result (which only an entry point
+ * may release, after a failed merge) once.  A merge result that happens to have the address of the
+ * already released placeholder is a different object. */
+__CPROVER_requires(key_file == NULL || (key_file == rc.obj && rc.free_calls == 0) ||
+                   (key_file == rc.merge_result && rc.merge_calls == 1 && rc.mfree_calls == 0))
+__CPROVER_assigns(rc.free_calls, rc.freed, rc.mfree_calls)
 __CPROVER_ensures(__CPROVER_return_value == NULL)
-__CPROVER_ensures(key_file != NULL ==> (rc.free_calls == 1 && rc.freed == key_file))
-__CPROVER_ensures(key_file == NULL ==> rc.free_calls == __CPROVER_old(rc.free_calls))
+__CPROVER_ensures((key_file != NULL && key_file == rc.obj && __CPROVER_old(rc.free_calls) == 0) ==>
+                  (rc.free_calls == 1 && rc.freed == key_file && rc.mfree_calls == __CPROVER_old(rc.mfree_calls)))
+__CPROVER_ensures((key_file != NULL && !(key_file == rc.obj && __CPROVER_old(rc.free_calls) == 0)) ==>
+                  (rc.mfree_calls == 1 && rc.free_calls == __CPROVER_old(rc.free_calls) && rc.freed == __CPROVER_old(rc.freed)))
+__CPROVER_ensures(key_file == NULL ==> (rc.free_calls == __CPROVER_old(rc.free_calls) && rc.freed == __CPROVER_old(rc.freed) &&
+                                        rc.mfree_calls == __CPROVER_old(rc.mfree_calls)))
 ;
 
 econf_err readConfigWithCallback(econf_file **result, const char *config_name, const char *config_suffix,
@@ -69,10 +84,21 @@ econf_err readConfigWithCallback(econf_file **result, const char *config_name, c
 __CPROVER_requires(result != NULL && *result == rc.obj)
 __CPROVER_requires(config_name == rc.name && config_suffix == rc.suffix && delim == rc.delim && comment == rc.comment)
 __CPROVER_requires(conf_dirs == rc.dirs && conf_count == rc.ndirs && callback == rc.cb && callback_data == rc.cb_data)
+/* the call log is empty on entry (the counts in the postconditions are absolute) */
+__CPROVER_requires(rc.hist_calls == 0 && rc.merge_calls == 0 && rc.free_calls == 0 && rc.mfree_calls == 0)
+RCWC_EXTRA_REQUIRES
 __CPROVER_assigns(*result, rc)
 /* the history array is owned by this function once the history reader handed it over */
 __CPROVER_frees(rc.hist_array)
 __CPROVER_ensures(IS_CODE(__CPROVER_return_value))
+/* what identifies the call is not touched (needed where this contract REPLACES the function: jobs entry.*) */
+__CPROVER_ensures(rc.obj == __CPROVER_old(rc.obj) && rc.name == __CPROVER_old(rc.name) && rc.suffix == __CPROVER_old(rc.suffix) &&
+                  rc.delim == __CPROVER_old(rc.delim) && rc.comment == __CPROVER_old(rc.comment) &&
+                  rc.dirs == __CPROVER_old(rc.dirs) && rc.ndirs == __CPROVER_old(rc.ndirs) &&
+                  rc.cb == __CPROVER_old(rc.cb) && rc.cb_data == __CPROVER_old(rc.cb_data) &&
+                  rc.dist == __CPROVER_old(rc.dist) && rc.etc == __CPROVER_old(rc.etc))
+__CPROVER_ensures((rc.hist_calls == 0 || rc.hist_calls == 1) && (rc.merge_calls == 0 || rc.merge_calls == 1) &&
+                  (rc.free_calls == 0 || rc.free_calls == 1) && rc.mfree_calls == 0)
 __CPROVER_ensures(rc.obj == NULL ==> (__CPROVER_return_value == ECONF_ARGUMENT_IS_NULL_VALUE && rc.hist_calls == 0))
 __CPROVER_ensures(rc.obj != NULL ==> rc.hist_calls == 1)
 /* C06: any failing file: the code is handed on, nothing is merged, the
